@@ -87,7 +87,8 @@ def readcoder(dra, indicespath, valuespath):
                f'}}\n'
     else:
         commas = len(dra._arrayinfo['atom'])*','
-        emptydim = ",".join([str(d) for d in dra.atom] + ['0'])
+        # R is column-major: atom dimensions are reversed, as in v
+        emptydim = ",".join([str(d) for d in dra.atom[::-1]] + ['0'])
         rff += f'    if (starti > endi) {{\n' \
                f'        return (array(numeric(),c({emptydim}))) # empty array\n' \
                f'    }} else {{\n' \
